@@ -117,9 +117,12 @@ def maybe_lzma_decompress(path) -> str:
     log(f'Reusing cached file {decompressed_path!r}')
   else:
     log(f'Decompressing {path!r} to {decompressed_path!r}')
+    # Decompress under a temporary name so that an interruption never leaves a
+    # truncated file at decompressed_path, which would be reused as a cached file.
     with lzma.open(path, 'rb') as fi:
-      with open(decompressed_path, 'wb') as fo:
+      with open(decompressed_path + '.partial', 'wb') as fo:
         shutil.copyfileobj(fi, fo)
+    os.rename(decompressed_path + '.partial', decompressed_path)
   return decompressed_path
 
 
